@@ -148,6 +148,18 @@ CLAIMED: dict[str, tuple[str, str, str, str, str]] = {
         "type-kind inference + consumer classification lint (dataflow of unordered collections into order-sensitive sinks)",
         "DESIGN §5 C10",
     ),
+    "C14": (
+        "proof",
+        "Proof-level for the clause 'HUGR bound is Copyable iff the Guppy type is copyable': the expression trees of "
+        "TypeBase.linear/affine/hugr_bound and TypeParam.to_hugr are evaluated on all boolean assignments (exhaustive, 6 "
+        "obligations). The rest is decided at 'other' level and reported in the same evidence: the structural copy/drop rule "
+        "interpreted on all argument/field lists up to length 2, copy/drop sibling alpha-equivalence, the builtin intrinsic "
+        "table, and the drop-insertion obligations (affine type list, recursion of requires_drop, per-port decision, must-call).",
+        "Trusted: ast parser, gsa/absint/pyeval.py; classes that override hugr_bound with a constant are checked separately "
+        "(NoneType/NumericType/FunctionType). Whether hugr's own TypeBound.join and the emitted drop ops are right is not decided.",
+        "finite-domain truth tables (exhaustive) + abstract evaluation of the structural rule + sibling/table agreement",
+        "DESIGN §5 C14",
+    ),
 }
 
 NOT_APPLICABLE: dict[str, str] = {
